@@ -59,6 +59,11 @@ class SimRec:
         self.unsaved = False  # a Solve happened since the last Save_Iter / Set_Iter (a discardable attempt)
 
 
+def tags_ok(world, rec) -> bool:
+    """The scripted load scenario needs a simulation whose mesh is not shared with a weak-form model."""
+    return rec.type != "WeakForms"
+
+
 class FreshWorld(World):
     PROPERTY = "C14"
     ENGINE = "fresh"
@@ -253,7 +258,7 @@ class FreshWorld(World):
                     op["i"] = others[int(rng.integers(len(others)))]
                     return op
             elif op["op"] == "coord":
-                op.update(mesh=rec.mesh_i, kind=["jitter", "scale", "rigid"][int(rng.integers(3))], aseed=int(rng.integers(1 << 30)))
+                op.update(mesh=rec.mesh_i, kind=op.pop("force_kind", None) or ["jitter", "scale", "rigid"][int(rng.integers(3))], aseed=int(rng.integers(1 << 30)))
                 return op
             elif op["op"] == "read":
                 op["op"] = "solve" if (self._well_posed(rec) and rng.random() < 0.5) or rec.type in simlib.NONLINEAR else "kcmf"
@@ -273,6 +278,17 @@ class FreshWorld(World):
                            {"op": "read", "s": s}, {"op": "coord"}, {"op": "read", "s": s}]
             self._queue[4]["s"] = s
             return {"op": "save_iter", "s": s}
+        if rng.random() < 0.05 and tags_ok(self, rec):
+            # a distributed load, the mesh in use re-coordinated (other Jacobians), the conditions cleared, the same load
+            # entered again on the same node set: what it integrates must be the geometry of now
+            used0 = sorted({r.mesh_i for r in self.sims})
+            first = self._finish_op({"op": "load"}, s, rec, rng, frng, used0[0])
+            if first.get("kind") == "neumann":
+                first["kind"] = "surfLoad" if self.dim == 3 else "lineLoad"
+                if first.get("tag") in ("S0", "V0") and self.dim == 2:
+                    first["kind"] = "volumeLoad"
+            self._queue = [{"op": "coord", "s": s, "force_kind": "scale"}, {"op": "bc_init", "s": s}, dict(first), {"op": "read", "s": s}]
+            return first
         orph = self.cfg.get("orphans")
         if orph and rec.solved and len(self.meshes) > 1 and rec.type != "WeakForms" and rng.random() < 0.2:
             other = [j for j in range(len(self.meshes)) if j != rec.mesh_i and orph[j] != orph[rec.mesh_i]]
@@ -525,7 +541,7 @@ class FreshWorld(World):
 
         if name == "param":
             mo = self.models[op["m"]]
-            if op["name"].replace("mat.", "") not in mo.params:
+            if op["name"].replace("mat.", "").replace("el.", "") not in mo.params:
                 return "skip"
             if mo.kind == "behavior" and op["name"] == "planeStress" and mo.params["dim"] == 3:
                 return "skip"
